@@ -8,6 +8,7 @@ import SarpyModel.Drivers.Cphd
 import SarpyModel.Drivers.Codec
 import SarpyModel.Drivers.Geo
 import SarpyModel.Drivers.Remap
+import SarpyModel.Drivers.Opener
 namespace Sarpy.Drivers
 
 def step (line : String) : String :=
@@ -23,6 +24,7 @@ def step (line : String) : String :=
   | "codec" :: rest => (codecStep rest).getD "bad-op"
   | "geo" :: rest => (geoStep rest).getD "bad-op"
   | "remap" :: rest => (remapStep rest).getD "bad-op"
+  | "opener" :: rest => (openerStep rest).getD "bad-op"
   | _ => "bad-op"
 
 partial def loop (h : IO.FS.Stream) : IO Unit := do
